@@ -40,13 +40,43 @@ def is_bare_safe(s):
     return is_ident(s) or (len(s) > 0 and not any(c in "#:,=()[]\"'\r\n \t0123456789" for c in s))
 
 
+FULL_PRECISION = [0.3333333333333333, 0.30000000000000004, 0.9999999999999999, 3.141592653589793, 2.718281828459045, 1.0000000000000002, -0.1000000000000000055,
+                  123456789.12345679, 1e-07, 1.7976931348623157e308, 2.2250738585072014e-308, 5e-324, 6.02214076e23, 1e22, 1e23, 9007199254740993.0, 0.1, 0.7, 1 / 3.0,
+                  2.0 / 3, 4.35, 1.1 * 1.1, 100 * 1.1, 1e16, 123456789012345680.0, 0.000123456789012345678]
+
+
+def rand_float(rng):
+    """decimals a program may hold: short ones, ones that need all 16-17 significant digits, random doubles of every magnitude"""
+    import struct
+    r = rng.random()
+    if r < 0.3:
+        return rng.choice([0.5, -1.25, 3.0, 100.0, 0.125, -0.001, 2.5, 1234.5678])
+    if r < 0.55:
+        return rng.choice(FULL_PRECISION) * rng.choice([1, 1, -1])
+    if r < 0.8:
+        return (rng.random() - 0.5) * 10.0 ** rng.randint(-6, 9)
+    while True:
+        x = struct.unpack("<d", struct.pack("<Q", rng.getrandbits(64)))[0]
+        if x == x and abs(x) != float("inf"):
+            return x
+
+
+def float_text(x):
+    """repr, with a decimal point in the mantissa (the grammar's decimals have one): 1e-07 -> 1.0e-07"""
+    r = repr(x)
+    if "e" in r and "." not in r.split("e")[0]:
+        m, e = r.split("e")
+        r = m + ".0e" + e
+    return r
+
+
 def rand_scalar(rng):
     r = rng.random()
     if r < 0.2:
         return Val("int", rng.choice([0, 1, -1, 7, 42, -300, 10 ** 12, 5, 2 ** 53 + 1, -(2 ** 53) - 1, 9223372036854775807, 10 ** 30 + 7,
                                       9007199254740993, int("9" * 400), -int("123456789" * 40)]))
     if r < 0.4:
-        return Val("float", rng.choice([0.5, -1.25, 3.0, 100.0, 0.125, -0.001, 2.5, 1234.5678]))
+        return Val("float", rand_float(rng))
     if r < 0.5:
         return Val("str", rand_ident(rng), how="bare")
     if r < 0.6:
@@ -157,8 +187,7 @@ class Renderer(object):
         if v.kind == "int":
             self.emit(str(v.v))
         elif v.kind == "float":
-            r = repr(v.v)
-            self.emit(r)
+            self.emit(float_text(v.v))
         else:
             how = v.how
             if how == "bare" and not is_bare_safe(v.v):
